@@ -30,6 +30,21 @@ CLAIMS = {
  "C04": dict(ref="5/C04",
    text="On a real Go struct type with int8, string-tagged int8, bool, string, slices, map, pointers, array, nested struct, []byte and an interface, the real Marshal and Unmarshal are executed symbolically: for every int8/uint8/bool value and every well-formed 1-2 byte string in six shapes (nil / empty / populated containers, untyped values behind the interface), under StringifyNumbers x Deterministic, Unmarshal accepts Marshal(v), the decoded value equals v, and re-marshaling reproduces the same bytes.",
    note="One type; decimal formatting of symbolic integers is a contract stub (digits constrained to denote the value), float digits and time formats are outside. reflect is the engine's go/types-backed environment model; the harness replays natively verbatim."),
+ "C07": dict(ref="5/C07",
+   text="A token-level Encoder with a tiny buffer (capacity 4/8/16, so flush thresholds fall at every position) is compared after EVERY call with a twin encoder with a large buffer, for call programs with symbolic strings/raw values, to a plain writer and to a *bytes.Buffer (aliasing path): delivered+buffered bytes, OutputOffset and stack agree; with solver-chosen short writes/failures the token is still accepted and nothing is lost or duplicated; members retracted through UnwriteEmptyObjectMember / UnwriteOnlyObjectMemberName (replaying the struct and map marshalers' preconditions) leave exactly the kept members and a consistent name set; a pooled streaming encoder re-used after a failed write starts clean.",
+   note="Typed MarshalWrite/MarshalEncode and buffers larger than 16 bytes are outside; at most 2 write faults per sequence."),
+ "C12": dict(ref="5/C12",
+   text="Value.Format, Compact, Indent, Canonicalize and AppendFormat on all byte strings up to the bound (full range n<=3, Sigma24 n<=4-5, skeletons) under groups of solver-chosen formatting options: success iff the reference validator accepts under the same Allow* options, unmodified on error (also with overlapping dst/src), output valid, same token meaning up to exactly the permitted differences (string spelling unless PreserveRawStrings without escape options, number spelling only under CanonicalizeRaw*, member order only under ReorderRawObjects), required escapes present, fixed point of the same operation.",
+   note="Numbers with symbolic digits are kept away from strconv (integers of <= 15 digits, no -0) and concrete literals cover the rest; 'an already formatted value is not rewritten' is checked as the fixed point only."),
+ "C13": dict(ref="5/C13",
+   text="CompareUTF16 equals the independent UTF-16 code-unit comparison on all byte strings x,y up to the bound (ill-formed included: antisymmetry, reflexivity, transitivity skeletons) and on 3/4-byte skeletons around U+E000..U+FFFF vs supplementary planes; Canonicalize output has no whitespace, members sorted by the reference comparator, members preserved, strings minimal, is valid and a fixed point; texts related by member swap, whitespace, \\uXXXX re-spelling or (concrete) number re-spelling canonicalize to identical bytes.",
+   note="The ECMAScript shortest float spelling is produced by strconv (outside); number content is a table of concrete literals plus short symbolic integers."),
+ "C18": dict(ref="5/C18",
+   text="Sequential-history clause: for call A (10 kinds of jsontext entry points and pooled coder loops, 4 option sets, inputs ending on every kind of exit incl. errors mid-object, a 67-member object forcing the map-backed namespace) followed by call B on an independent symbolic input, B's verdict, bytes, token count and error (offset, pointer) on the RECYCLED pooled coder equal those on fresh coders; results of Format/AppendFormat/Clone and the JSON value inside a SemanticError are not altered by later calls or by overwriting the caller's buffer; Encoder/Decoder.Reset equals a new coder; a Marshal failing >1000 levels deep leaves nothing behind for the next Marshal of the same containers.",
+   note="Goroutine interleavings and data races are outside this (sequential) technique, as are 1 MiB documents; sync.Pool is modelled as LIFO re-use."),
+ "C20": dict(ref="5/C20",
+   text="Depth towers of 9999/10000/10001 levels ([, {\"\":, alternating) with an innermost value from {none, 0, {}, []} and 0-2 symbolic bytes: accepted iff nesting <= 10000 on the ReadToken loop, ReadValue, SkipValue, IsValid, tokens-then-value splits, Format, Compact, AppendFormat, WriteValue, WriteToken pushes, and Marshal of nested []any / map[string]any with solver-chosen leaves incl. empty containers; Token accessors, constructors, WithIndent/WithIndentPrefix and Reset misuse panic exactly when documented; every panic escaping any harness of any property is reported as a violation.",
+   note="Deep or cyclic typed Go values beyond []any/map[string]any and wall-clock termination (only the step budget) are outside."),
  "C05": dict(ref="5/C05",
    text="A decoder fed through a reader whose every Read size is chosen by the solver (tiny buffer capacities 2..8 and the real 64-byte buffer, empty reads, EOF delivered with data) is compared call by call with a decoder over the whole slice, for all sequences of ReadToken/ReadValue/SkipValue/PeekKind within the bound and symbolic input bytes (full range and templates): same results, error class/offset/pointer, InputOffset, StackDepth, StackIndex, StackPointer; returned values equal their input span; reader bytes = first InputOffset bytes ++ UnreadBuffer. A second family injects one transient read error at a solver-chosen Read: the pending ReadToken/ReadValue returns it, state is unchanged, the retry continues identically.",
    note="Bounded: inputs of 2-3 fully symbolic bytes and templates of up to 18 bytes with symbolic holes, 2-3 calls, the first 2-9 Read sizes symbolic then 1-byte reads. UnmarshalRead/UnmarshalDecode for typed targets are reflection-driven and outside this claim. Trusted: gosym semantics (replay-validated), z3."),
